@@ -4,6 +4,10 @@ import json, os, re, shutil, sys
 NOTES = {
  'c13-1': 'missed by the first C13 slice (no divide-overflow case with a faulting destination); caught after the generator gained that case',
  'c07-1': 'missed by the first C07 slice (the interrupted PSW never had R set); caught after the generator varies the R bit of the interrupted PSW',
+ 'c12-1': 'missed by the first C12 slice; caught after the hostile streams gained chains of expanded-type prefixes',
+ 'c12-3': 'missed by the first C12 slice; caught after divide / remainder cases became systematic over sizes and the extreme operands',
+ 'c01-1': 'missed by the first C01 slice (only the default 9600 baud option); caught after the end-to-end generator varies the saved baud option',
+ 'c01-2': 'missed by the first C01 slice; caught after the scroll scenario (130 line feeds) was added',
  'c03-3': 'missed by the first C03 slice (only two-operand probes); caught after expanded types are spread over 3- and 4-operand instructions',
 }
 for f in sorted(os.listdir('/var/tmp/mutres')):
